@@ -2,8 +2,9 @@
 # tools/confirm_queue.sh : run tools/confirm_seed.sh for every id listed in /tmp/confirm-queue.txt (appended to by hand), one at a time.
 touch /tmp/confirm-queue.txt /tmp/confirm-done.txt
 while true; do
-  ID=$(grep -vxFf /tmp/confirm-done.txt /tmp/confirm-queue.txt | head -1)
-  if [ -z "$ID" ]; then sleep 30; continue; fi
-  T=${T:-5} /verif/tools/confirm_seed.sh "$ID" > /tmp/confirm-$ID.log 2>&1
-  echo "$ID" >> /tmp/confirm-done.txt
+  LINE=$(grep -vxFf /tmp/confirm-done.txt /tmp/confirm-queue.txt | head -1)
+  if [ -z "$LINE" ]; then sleep 30; continue; fi
+  ID=${LINE%% *}
+  T=${T:-5} /verif/tools/confirm_seed.sh $LINE > /tmp/confirm-$ID.log 2>&1
+  echo "$LINE" >> /tmp/confirm-done.txt
 done
